@@ -1,0 +1,238 @@
+//go:build verif
+
+package routine
+
+// Contracts for GoVC (see /verif/DESIGN.md). Comment-only: compiles to nothing.
+//
+// RoutineContainer is a monitor: bcast.mtx guards ctx, routine and the mutable fields of every
+// runningRoutine record that belongs to it (record.r names the container). An "instance" is one execute
+// goroutine; it is identified by its exitedCh (made in start). Ghost history:
+//   xowner(ch)  the container for which instance ch was started            (set once)
+//   pred(ch)    the channel instance ch waits for before entering the managed function (set once)
+//   ictx(ch)    the context given to instance ch; chof(ctx) its inverse     (set once)
+//   xrun(ch)    the goroutine executing instance ch (owned; handed over at the go statement, given up at close)
+//   xfin(ch)    the same goroutine until it has recorded the exit in the record (owned); xdone(ch): it has (monotone)
+//   lastCh      (container) the exitedCh of the most recently started instance
+// The hand-over chain (C04):
+//   E1  an instance's exitedCh is closed only by its own goroutine, after the managed function has returned
+//       (or was never entered) and after the channel it waited for was closed
+//   callback 1 in execute: the managed function is entered only after the predecessor channel was closed
+//   go 1 in start: every new instance is given the exitedCh of the most recently started instance as its
+//       predecessor (or that instance has already exited)
+//   H2/H3  the current record carries the head of the chain: its exitedCh is lastCh, or lastCh is closed
+// By induction along pred, closed(ch) implies that the instance ch and every instance started before it
+// have returned; an instance enters the function only after closed(pred), every later instance waits for
+// a channel that is still open while it runs: never two at once.
+//
+//@ ghostmap xowner: ref -> ref once
+//@ ghostmap pred: ref -> ref once
+//@ ghostmap ictx: ref -> ref once
+//@ ghostmap xrun: ref -> ref owned
+//@ ghostmap chof: ref -> ref once
+//@ ghostmap xfin: ref -> ref owned
+//@ ghostmap xdone: ref -> bool by xfin
+//
+//@ object RoutineContainer
+//@   props C04 C05 C14 C13
+//@   lock bcast.mtx
+//@   guarded ctx, routine, runningRoutine.ctx, runningRoutine.ctxCancel, runningRoutine.exitedCh, runningRoutine.err, runningRoutine.success, runningRoutine.exited, runningRoutine.deferRetry
+//@   immutable exitedCbs, retryBo, runningRoutine.r, runningRoutine.routine
+//@   records runningRoutine via r
+//@   ghost lastCh: ref
+//@   inv H1: this.lastCh != nil ==> xowner(this.lastCh) == this
+//@   inv H2: this.routine != nil ==> this.routine.r == this && this.routine.routine != nil && (this.routine.exitedCh == this.lastCh || (this.routine.exitedCh == nil && (this.lastCh == nil || closed(this.lastCh))))
+//@   inv R1: forall rr: *runningRoutine {rr.r} :: rr.r == this && rr.ctx != nil && !rr.exited ==> rr.exitedCh != nil && chof(rr.ctx) == rr.exitedCh && xowner(rr.exitedCh) == this
+//@   inv R2: forall rr: *runningRoutine {rr.r} :: rr.r == this && rr.ctx != nil && rr.exited ==> chof(rr.ctx) != nil && xdone(chof(rr.ctx))
+//@   inv H3: this.routine == nil ==> this.lastCh == nil || closed(this.lastCh)
+//
+//@ ginv E0: forall ch: ref {xowner(ch)} :: xowner(ch) != nil ==> ch != nil && allocated(ch) && madein(ch, "(*runningRoutine).start")
+//@ ginv E1: forall ch: ref {xowner(ch)} :: xowner(ch) != nil && closed(ch) ==> xrun(ch) == nil && (pred(ch) != nil ==> closed(pred(ch)))
+//@ ginv E3: forall ch: ref {xdone(ch)} :: xdone(ch) ==> xfin(ch) == nil
+//@ gtrans FM: forall ch: ref {xdone(ch)} :: old(xdone(ch)) ==> xdone(ch)
+//@ ginv E2: forall ch: ref {xrun(ch)} :: xrun(ch) != nil ==> xowner(ch) != nil && !closed(ch)
+//
+//@ func newRunningRoutine
+//@   props C04
+//@   inline
+//
+//@ func (*runningRoutine).stop
+//@   props C04 C05
+//@   inline
+//@   opt holds = r.bcast.mtx
+//@   opt frame = skip
+//@   requires r != nil && r.r != nil
+//
+//@ func (*runningRoutine).start
+//@   props C04 C05 C14
+//@   inline
+//@   opt holds = r.bcast.mtx
+//@   requires r != nil && r.r != nil && ctx != nil
+//@   requires current: r.r.routine == r
+//@   requires chain: waitCh == r.r.lastCh || r.r.lastCh == nil || closed(r.r.lastCh)
+//@   ghost go 1: xowner(exitedCh) := r.r
+//@   ghost go 1: pred(exitedCh) := waitCh
+//@   ghost go 1: ictx(exitedCh) := r.ctx
+//@   ghost go 1: xrun(exitedCh) := child
+//@   ghost go 1: xfin(exitedCh) := child
+//@   ghost go 1: chof(r.ctx) := exitedCh
+//@   ghost go 1: r.r.lastCh := exitedCh
+//@   assert go 1: chain: waitCh == r.r.lastCh || r.r.lastCh == nil || closed(r.r.lastCh)
+//@   opt frame = skip
+//
+//@ func (*runningRoutine).execute
+//@   props C04 C05 C14 C13
+//@   opt frame = skip
+//@   opt inherits = xrun xfin
+//@   requires r != nil && r.r != nil && ctx != nil && cancel != nil && r.routine != nil
+//@   requires mine: exitedCh != nil && xrun(exitedCh) == me && xfin(exitedCh) == me && xowner(exitedCh) == r.r && pred(exitedCh) == waitCh && chof(ctx) == exitedCh && ictx(exitedCh) == ctx
+//@   assert select 1: selects(waitCh) && selects(done(ctx))
+//@   assert callback 1: handover: waitCh == nil || closed(waitCh)
+//@   ghost close 1: xrun(exitedCh) := nil
+//
+//@ closure (*runningRoutine).execute$1
+//@   props C04 C14
+//@   ghost entry: xdone(exitedCh) := true
+//@   ghost entry: xfin(exitedCh) := nil
+//@   loop 1 invariant idx: -1 <= i && i < len(r.r.exitedCbs)
+//
+//@ func (*RoutineContainer).SetRoutine
+//@   props C04 C05
+//@   opt frame = skip
+//@   requires k != nil
+//
+//@ closure (*RoutineContainer).SetRoutine$1
+//@   props C04
+//
+//@ func (*RoutineContainer).setRoutineLocked
+//@   props C04 C05 C14
+//@   opt holds = bcast.mtx
+//@   opt frame = skip
+//@   requires k != nil && broadcast != nil
+//
+//@ func (*RoutineContainer).SetContext
+//@   props C04 C05 C14
+//@   opt frame = skip
+//@   requires k != nil
+//
+//@ closure (*RoutineContainer).SetContext$1
+//@   props C04 C05 C14
+//
+//@ func (*RoutineContainer).ClearContext
+//@   props C04 C05
+//@   opt frame = skip
+//@   requires k != nil
+//
+//@ func (*RoutineContainer).getRunningLocked
+//@   props C05
+//@   opt holds = bcast.mtx
+//@   opt frame = skip
+//@   requires k != nil
+//
+//@ func (*RoutineContainer).RestartRoutine
+//@   props C04 C14
+//@   opt frame = skip
+//@   requires k != nil
+//
+//@ closure (*RoutineContainer).RestartRoutine$1
+//@   props C04 C14
+//
+//@ func (*RoutineContainer).restartRoutineLocked
+//@   props C04 C05 C14
+//@   opt holds = bcast.mtx
+//@   opt frame = skip
+//@   requires k != nil && broadcast != nil
+//
+//@ func (*RoutineContainer).WaitExited
+//@   props C14
+//@   opt frame = skip
+//@   requires k != nil && ctx != nil
+//@   assert select 1: selects(waitCh) && selects(done(ctx)) && selects(errCh) && waitCh != nil && issuedBy(waitCh) == k.bcast && gettime(waitCh) == lastcs()
+//
+//@ closure (*RoutineContainer).WaitExited$1
+//@   props C14
+//@   assert exit: waitCh != nil && waitCh == k.bcast.ch
+//
+// The retry timer callback (started by execute's critical section through time.AfterFunc).
+//@ func (*runningRoutine).execute$1$1
+//@   props C04 C14 C13
+//@   opt frame = skip
+//@   requires r != nil && r.r != nil
+//
+//@ closure (*runningRoutine).execute$1$1$1
+//@   props C04 C14
+//
+// StateRoutineContainer: s.bcast guards s and stateRoutine; rc and compare are immutable. Every state
+// change hands a closure that captured the new state to rc.setRoutineLocked.
+//
+//@ object StateRoutineContainer
+//@   props C04 C05 C13
+//@   lock bcast.mtx
+//@   guarded s, stateRoutine
+//@   immutable rc, compare
+//
+//@ func (*StateRoutineContainer).GetState
+//@   props C05
+//@   opt frame = skip
+//@   requires s != nil
+//
+//@ closure (*StateRoutineContainer).GetState$1
+//@   props C05
+//
+//@ func (*StateRoutineContainer).SetState
+//@   props C04 C05
+//@   opt frame = skip
+//@   requires s != nil && s.rc != nil
+//
+//@ closure (*StateRoutineContainer).SetState$1
+//@   props C04 C05
+//
+//@ func (*StateRoutineContainer).setStateLocked
+//@   props C04 C05
+//@   inline
+//@   opt holds = bcast.mtx
+//@   opt frame = skip
+//@   opt pure-callbacks = compare
+//@   requires s != nil && s.rc != nil && broadcast != nil
+//
+//@ func (*StateRoutineContainer).SwapValue
+//@   props C04 C05
+//@   opt frame = skip
+//@   requires s != nil && s.rc != nil
+//
+//@ closure (*StateRoutineContainer).SwapValue$1
+//@   props C04 C05
+//
+//@ func (*StateRoutineContainer).SetStateRoutine
+//@   props C04 C05
+//@   opt frame = skip
+//@   requires s != nil && s.rc != nil
+//
+//@ closure (*StateRoutineContainer).SetStateRoutine$1
+//@   props C04 C05
+//
+//@ func (*StateRoutineContainer).updateStateRoutineLocked
+//@   props C04 C05
+//@   inline
+//@   opt holds = bcast.mtx
+//@   opt frame = skip
+//@   requires s != nil && s.rc != nil && broadcast != nil
+//
+//@ func (*StateRoutineContainer).SetContext
+//@   props C05
+//@   opt frame = skip
+//@   requires s != nil && s.rc != nil
+//
+//@ func (*StateRoutineContainer).ClearContext
+//@   props C05
+//@   opt frame = skip
+//@   requires s != nil && s.rc != nil
+//
+//@ func (*StateRoutineContainer).RestartRoutine
+//@   props C04
+//@   opt frame = skip
+//@   requires s != nil && s.rc != nil
+//
+//@ func (*StateRoutineContainer).WaitExited
+//@   props C14
+//@   opt frame = skip
+//@   requires s != nil && s.rc != nil && ctx != nil
